@@ -129,3 +129,92 @@ def is_finite(x) -> bool:
         return math.isfinite(float(x))
     except (TypeError, ValueError, OverflowError):
         return False
+
+
+def mutated_object_block(rep, ctx, stream, hp_too=True, nseq=None):
+    """Calculations on an inventory that was used, then changed IN PLACE (add / subtract / remove), then used again:
+    every result must be bit-identical to the same calculation on a FRESH inventory holding the same amounts (the
+    result is a function of the stored amounts, the time and the dataset — not of what the object was asked before).
+    Covers decay (incl. t = 0), cumulative_decays, the three fraction read-outs and a time series, both classes.
+    Returns the number of mismatches."""
+    from invlib import fbits
+    rd = ctx.rd
+    gen = Gen(rd, ctx.seed, stream)
+    r, view = gen.r, gen.view
+    bad = 0
+    nseq = nseq or (40 if ctx.tier == "thorough" else 8)
+
+    def snap(inv, hp, t, tu):
+        enc = (lambda v: str(v)) if hp else (lambda v: fbits(v))
+        out = {}
+        out["decay"] = [(str(k), enc(v)) for k, v in inv.decay(t, tu).contents.items()]
+        out["decay0"] = [(str(k), enc(v)) for k, v in inv.decay(0, tu).contents.items()]
+        out["cum"] = [(str(k), fbits(v)) for k, v in inv.cumulative_decays(t, tu).items()]
+        try:
+            out["frac"] = [[(str(k), fbits(v)) for k, v in f().items()] for f in (inv.mass_fractions, inv.mole_fractions)]
+            out["afrac"] = [(str(k), fbits(v)) for k, v in inv.activity_fractions().items()]
+        except ZeroDivisionError:
+            out["frac"] = out.get("frac", "zero-total")
+            out["afrac"] = "zero-total"
+        if not hp:
+            tp, data = inv.decay_time_series(t, tu, npoints=3, decay_units="num")
+            out["series"] = [(str(k), [fbits(x) for x in v]) for k, v in data.items()]
+        return out
+
+    for s in range(nseq):
+        for hp in ((False, True) if hp_too and s % 3 == 0 else (False,)):
+            C = rd.InventoryHP if hp else rd.Inventory
+            pool = r.sample(gen.radio, 4) + r.sample(gen.stable, 1)
+            amt = (lambda: r.randint(1, 10**9)) if hp else (lambda: 10.0 ** r.uniform(0, 20))
+            names0 = r.sample(pool, 2)
+            inv = C({view.names[i]: amt() for i in names0}, "num")
+            g = r.choice([i for i in pool if view.rate[i] != 0])
+            t, tu = float(r.choice([0.3, 1.0, 4.0]) / view.rate[g]), "s"
+            log = [f"inv = {C.__name__}({dict(inv.contents)!r}, 'num')"]
+            try:
+                snap(inv, hp, t, tu)                       # first use (fills whatever the object may remember)
+                log.append(f"decay / cumulative_decays / fractions / series at t={t!r} s")
+                for step in range(r.choice([1, 2, 3])):
+                    k = r.random()
+                    present = list(inv.contents)
+                    if k < 0.35:
+                        nm = view.names[r.choice([i for i in pool if view.names[i] not in present] or pool)]
+                        a = amt()
+                        inv.add({nm: a}, "num")
+                        log.append(f"inv.add({{{nm!r}: {a!r}}}, 'num')")
+                    elif k < 0.6:
+                        nm = r.choice(present)
+                        a = amt()
+                        inv.add({nm: a}, "num")
+                        log.append(f"inv.add({{{nm!r}: {a!r}}}, 'num')   # nuclide already present")
+                    elif k < 0.8:
+                        nm = r.choice(present)
+                        a = inv.contents[nm] / 4
+                        inv.subtract({nm: a}, "num")
+                        log.append(f"inv.subtract({{{nm!r}: {a!r}}}, 'num')")
+                    elif len(present) > 1:
+                        nm = r.choice(present)
+                        inv.remove(nm)
+                        log.append(f"inv.remove({nm!r})")
+                    got = snap(inv, hp, t, tu)
+                    fresh = C(dict(inv.contents), "num", False)
+                    want = snap(fresh, hp, t, tu)
+                    rep.case((stream, s, hp, step, tuple(log)), sample={"history": log[:4]} if s == 0 and step == 0 else None)
+                    gen._count("mutated-object:" + ("hp" if hp else "float"))
+                    diff = [kk for kk in want if got.get(kk) != want[kk]]
+                    if diff:
+                        bad += 1
+                        kk = diff[0]
+                        gk = [x[0] for x in got[kk]] if isinstance(got[kk], list) and got[kk] and isinstance(got[kk][0], tuple) else None
+                        wk = [x[0] for x in want[kk]] if isinstance(want[kk], list) and want[kk] and isinstance(want[kk][0], tuple) else None
+                        detail = (f"nuclides {sorted(set(gk) ^ set(wk))[:4]} appear/disappear" if gk is not None and gk != wk
+                                  else "same nuclides, different values")
+                        rep.violation("failing-input", f"history {log!r}: then {diff} at t={t!r} s differ from the same calculation on a "
+                                      f"fresh {C.__name__} with the same amounts {dict(inv.contents)!r} ({kk}: {detail})",
+                                      {"history": log, "differs": diff}, True)
+                        break
+            except Exception as e:  # noqa: BLE001
+                bad += 1
+                rep.violation("failing-input", f"history {log!r}: raised {type(e).__name__}: {e}", {"history": log}, True)
+    rep.corr["input_distribution"].update(gen.dist)
+    return bad
